@@ -27,6 +27,8 @@ pub struct Weights {
     pub faults: bool,
     pub partial16: u64,
     pub max_steps: usize,
+    /// > 0: start (mostly) from a deep tree whose terminals come from a palette of this size, with re-grown sub-trees
+    pub palette: usize,
 }
 
 fn status(out: &mut String, s: &PolytopeStatus) {
@@ -112,7 +114,8 @@ pub fn case(rng: &mut Rng, w: &Weights, tag: &str) -> String {
     let mut out = String::new();
     write!(out, "HIST {} {} ", tag, enc::num(1e-8)).unwrap();
     // constructor
-    let mut t: AffTree<2> = match rng.below(6) {
+    let ctor = if w.palette > 0 && rng.chance(3, 4) { 5 } else { rng.below(6) };
+    let mut t: AffTree<2> = match ctor {
         0 => {
             m = n;
             write!(out, "new {}", n).unwrap();
@@ -152,7 +155,11 @@ pub fn case(rng: &mut Rng, w: &Weights, tag: &str) -> String {
         }
         _ => {
             m = 1 + rng.below(3);
-            let tp = TreeParams { in_dim: n, out_dim: m, max_depth: 2 + rng.below(2), partial16: w.partial16, holes: rng.chance(1, 3) };
+            let tp = if w.palette > 0 {
+                TreeParams { in_dim: n, out_dim: m, max_depth: 3 + rng.below(3), partial16: w.partial16, holes: true, palette: if rng.chance(1, 2) { 2 } else { w.palette } }
+            } else {
+                TreeParams { in_dim: n, out_dim: m, max_depth: 2 + rng.below(2), partial16: w.partial16, holes: rng.chance(1, 3), palette: 0 }
+            };
             out.push_str("tree");
             rand_tree(rng, &tp)
         }
@@ -208,7 +215,7 @@ pub fn case(rng: &mut Rng, w: &Weights, tag: &str) -> String {
                 (format!("schema {}", name), g)
             } else {
                 let p = 1 + rng.below(3);
-                let tp = TreeParams { in_dim: m, out_dim: p, max_depth: 1 + rng.below(2), partial16: w.partial16, holes: false };
+                let tp = TreeParams { in_dim: m, out_dim: p, max_depth: 1 + rng.below(2), partial16: w.partial16, holes: false, palette: 0 };
                 let mut g: AffTree<2> = rand_tree(rng, &tp);
                 if rng.chance(1, 2) {
                     // an operand that carries cached feasibility states from its own earlier elimination
@@ -243,7 +250,7 @@ pub fn case(rng: &mut Rng, w: &Weights, tag: &str) -> String {
         } else if { pick -= w.reduce; pick < w.arith_tree } {
             let nops = if rng.chance(1, 6) { 4 } else { 3 };
             let which = rng.below(nops);
-            let tp = TreeParams { in_dim: n, out_dim: m, max_depth: 1 + rng.below(2), partial16: w.partial16, holes: false };
+            let tp = TreeParams { in_dim: n, out_dim: m, max_depth: 1 + rng.below(2), partial16: w.partial16, holes: false, palette: 0 };
             let mut g: AffTree<2> = rand_tree(rng, &tp);
             if rng.chance(1, 2) {
                 g.infeasible_elimination();
@@ -445,7 +452,7 @@ pub fn net_case(rng: &mut Rng, thorough: bool) -> String {
     } else if rng.chance(1, 4) {
         // an arbitrary total tree as precondition
         let m = 1 + rng.below(3);
-        let tp = TreeParams { in_dim: n, out_dim: m, max_depth: 2, partial16: 0, holes: false };
+        let tp = TreeParams { in_dim: n, out_dim: m, max_depth: 2, partial16: 0, holes: false, palette: 0 };
         let t: AffTree<2> = rand_tree(rng, &tp);
         Some((Polytope::unbounded(n), t))
     } else {
